@@ -183,7 +183,8 @@ def build_login(work, vectors, tier, rng, n_random, cap):
                 work.add(f"{v['id']}|{t}|wr", ['L.wr', version, d, t, v['hex'], ';'.join(wscheds), len(wscheds) - 1], {**meta, 'op': 'write', 'nsched': len(wscheds)})
             # malformed / truncated variants
             nv = 3 if tier == 'quick' else 32
-            for klass, suffix, f in login_variants(v, rng, tier):
+            # long frames (255 / 256 element arrays) are delivered in pieces above; their malformed variants would be quadratic
+            for klass, suffix, f in (login_variants(v, rng, tier) if n <= 2048 else ()):
                 m = len(f)
                 sc = (list(compositions(m)) if m <= 8 else ['w', f'1x{m}', str(m // 2), f'{m - 1}']) + [random_schedule(m, rng) for _ in range(nv)]
                 for t in targets:
@@ -247,7 +248,7 @@ def build_world(work, corpus, vectors, names, tier, rng, n_random, cap):
                         ws = ws[:8]
                     work.add(f"{v['id']}|{t}|{crypt}|wr", ['W.wr', version, d, t, ccol, v['hex'], ';'.join(ws), len(ws) - 1], {**meta, 'op': 'write', 'nsched': len(ws)})
             # malformed / truncated variants for the typed sample and the boundary frames
-            if len(targets) > 1 and not big:
+            if len(targets) > 1 and not big and n <= 2048:
                 fm = v if v.get('fmap') else {**v, 'fmap': []}
                 for klass, suffix, f in world_variants(fm, rng, tier):
                     m = len(f)
